@@ -3,6 +3,10 @@
 HOOK_COMMITS = ["1ba4448"]
 
 ENGINES = [
+    {"name": "m_text", "path": "harness/vtext/src/bin/m_text.rs", "serves_properties": ["C13", "C14", "C19"],
+     "kind_free_text": "runtime monitor (in-process, needs hook feature `verif`): drives glas::vfs::Vfs/LineMap and glas::convert against a reference model of an LSP client document (vh::lspmodel) and an LSP semantic-token decoder; exhaustive small-document spaces plus seeded long documents"},
+    {"name": "m_lsp", "path": "harness/vh/src/bin/m_lsp.rs", "serves_properties": ["C13", "C15"],
+     "kind_free_text": "runtime monitor (black box): drives the real release binary `glas --stdio` with generated LSP message sequences (vh::lspclient), observes liveness, exactly-once responses and the server's document text through glas/syntaxTree, judged against a nondeterministic model of acceptable document states"},
     {"name": "m_sema", "path": "harness/vh/src/bin/m_sema.rs", "serves_properties": ["C05", "C06", "C07", "C08", "C18"],
      "kind_free_text": "runtime monitor: scope-aware generated workspaces (ground truth recorded by the generator's sidecar) loaded into ide::AnalysisHost; by-construction binding oracle (C05), refs<=>goto census law (C06), rename + fresh re-analysis isomorphism (C07), rename refusal reference table over three packages (C08), completion scope sets and accept-and-resolve (C18)"},
     {"name": "m_robust", "path": "harness/vh/src/bin/m_robust.rs", "serves_properties": ["C10", "C20"],
@@ -96,5 +100,31 @@ META = {
         "level_text": ("Exploration: ~2x10^5 holes per quick run. Found and repaired: aliased unqualified imports offered under the wrong name; opaque types' constructors offered after `m.`."),
         "design_ref": "DESIGN.md §5 C18",
         "level_note": "Value-name completion only (keywords/snippets and built-in constructors ignored both ways); field completion after `value.` needs well-typed programs (typed engine).",
+    },
+    "C13": {
+        "technique": "LSP client document reference model vs. the server's document store: exhaustive single edits in-process + generated didOpen/didChange histories against the real binary",
+        "level_text": ("Exploration: all single edits over the small-document space (~8x10^6 edits) through the exact primitive sequence of on_did_change, seeded edit sequences, and ~2.5x10^5 notifications (most with several changes) "
+                       "sent to the real server, whose text is read back after each through glas/syntaxTree. Found and repaired: the first didOpen of a project was overwritten by the on-disk text."),
+        "design_ref": "DESIGN.md §5 C13",
+        "level_note": "Black-box documents use tokens shorter than 25 bytes (rowan's debug dump truncates longer tokens; the checked prefix length is counted). gleam.toml documents are not judged.",
+    },
+    "C14": {
+        "technique": "round-trip / monotonicity / model-agreement laws on LineMap and convert, exhaustive over small documents",
+        "level_text": "Exploration, exhaustive on documents of <=6 symbols over {ASCII, LF, 2-/3-/4-byte}: every boundary and every ordered pair; plus random documents up to 64 KiB. Held on everything observed.",
+        "design_ref": "DESIGN.md §5 C14",
+        "level_note": "The model (vh::lspmodel) is hand-written from the LSP specification; outgoing ranges of real handlers are additionally exercised end to end by C13/C15/C19.",
+    },
+    "C15": {
+        "technique": "fault enumeration: grammar of valid and invalid LSP messages against the real binary; liveness, exactly-once accounting, acceptable-state-set oracle, deadlock classifier",
+        "level_text": ("Fault enumeration: ~3x10^3 sequences (5-60 messages each) per quick run, each against a fresh server process, covering every invalid-position class x message kind listed in the evidence. "
+                       "Found and repaired: five ways to kill the server with one notification (reversed range, positions beyond the document, mid-surrogate column, change after a rejected change, non-file URI)."),
+        "design_ref": "DESIGN.md §5 C15",
+        "level_note": "A deadlock verdict requires unanswered requests, an unanswered probe and flat CPU over 2 s; anything else that is slow is inconclusive. Valgrind memcheck subset: thorough tier.",
+    },
+    "C19": {
+        "technique": "LSP semantic-token decoder model: exhaustive encoder inputs over small documents; end-to-end highlight -> encode -> decode vs. generator ground truth",
+        "level_text": ("Exploration: ~5x10^6 encoder cases (all disjoint word-range sets over all small documents with multi-byte characters) and ~10^4 generated programs per quick run. Found and repaired: module qualifiers never tagged `namespace`."),
+        "design_ref": "DESIGN.md §5 C19",
+        "level_note": "Function-typed locals are accepted with either tag in scoped mode; typed programs assert the `function` tag.",
     },
 }
